@@ -22,6 +22,7 @@ type concEvent struct {
 	RT   string      `json:"rt"`
 	Up   [][2]uint64 `json:"up"` // (key, stamp)
 	Kind int         `json:"kind"` // invoke with an unknown resource kind when 1
+	KIdx int         `json:"kidx"` // which unknown kind
 }
 
 type concCase struct {
@@ -230,7 +231,7 @@ func runConc(raw json.RawMessage) (out interface{}, err error) {
 			kind := rtNames[rt]
 			if ev.Kind == 1 {
 				// a kind the manager does not know: beyond the range, zero, negative, extreme
-				kind = unknownKinds[(c.ID+ev.T)%len(unknownKinds)]
+				kind = unknownKinds[ev.KIdx%len(unknownKinds)]
 			}
 			go func() {
 				var r getRet
